@@ -79,6 +79,9 @@ type Exec struct {
 	boundPhis  map[*ssa.Phi]Val
 	ctxPCs     []Term // path conditions of the enclosing (inlining) call sites
 	globalPinned map[*ssa.Global]bool
+	stableCache  []*ssa.Global
+	roInit       map[string]Term // reference (constant term) of a read-only package variable -> its initialiser
+	oldWrites    int  // stores whose target is not syntactically an object allocated by the function itself
 	allocBound   *Clause // `opt alloc=<expr>`: byte bound for data-dependent allocations
 	topContract  *FnContract
 	topArgs      []Val
